@@ -34,9 +34,9 @@ type valueCheck func(n *indep.Node) string
 
 type resExpect struct {
 	Path     string
-	Parent   string                // hierarchy parent ("" for the top)
-	Has      map[qname]valueCheck  // properties the resource has (value checked when served with values)
-	Optional map[qname]bool        // whether the resource has it is not judged
+	Parent   string               // hierarchy parent ("" for the top)
+	Has      map[qname]valueCheck // properties the resource has (value checked when served with values)
+	Optional map[qname]bool       // whether the resource has it is not judged
 }
 
 func textIs(want string) valueCheck {
